@@ -6,6 +6,7 @@ import (
 	"fmt"
 	"go/token"
 	"math/big"
+	"strings"
 )
 
 func newInt(i int64) *big.Int { return big.NewInt(i) }
@@ -33,6 +34,19 @@ func (it *Interp) litTerm(s string) *Term {
 }
 
 // toA lifts a string value to an opaque Str term.
+// fromA: the structured form of an opaque term where it has one (literals, byte vectors).
+func (it *Interp) fromA(t *Term) *StrV {
+	if t.op == "var" {
+		if v, ok := it.p.litVal[t.name]; ok {
+			return strLit(v)
+		}
+	}
+	if t.op == "app" && strings.HasPrefix(t.name, "bytes!") {
+		return &StrV{Bytes: append([]*Term(nil), t.args...), IsB: true}
+	}
+	return &StrV{T: t}
+}
+
 func (it *Interp) toA(s *StrV) *Term {
 	if s.T != nil {
 		return s.T
